@@ -64,6 +64,7 @@ type Config struct {
 	ReadBuf  int  `json:"readbuf"`
 	NoPause  bool `json:"nopause"`
 	LazyExch bool `json:"lazyexch"` // the application does not read its exchange channels until the end
+	StartSeq int  `json:"startseq"` // the session starts with one pending publish per level at this sequence number
 	Volatile bool `json:"volatile"`
 	WaitMin  int  `json:"waitmin_ms"`
 	WaitMax  int  `json:"waitmax_ms"`
@@ -322,6 +323,31 @@ func Run(b *Behaviour) (events []sim.Ev) {
 		return
 	}
 	x.gen = 1
+	if b.Cfg.StartSeq > 0 {
+		// A session as a client that got this far would have left it: one unacknowledged publish per
+		// level, saved in the library's own record format; the client under test adopts it.
+		for lvl := 1; lvl <= 2; lvl++ {
+			key := uint(0x8000)
+			if lvl == 2 {
+				key = 0xc000
+			}
+			key |= uint(b.Cfg.StartSeq) & 0x3fff
+			pkt := codec.Encode(&codec.Packet{T: "PUBLISH", QoS: lvl, ID: int(key), Topic: "t", Payload: codec.Payload(9000+lvl, 8)})
+			var val []byte
+			for _, part := range mqtt.VerifEncodeValue(net.Buffers{pkt}, uint64(10+lvl)) {
+				val = append(val, part...)
+			}
+			x.Store.Put(key, val)
+			x.storeEvent(simstore.Op{Op: "Save", Key: key, Val: val}, true)
+		}
+		x.emit(sim.Ev{"e": "stop", "gen": 1, "keys": x.keys()})
+		x.gen = 1
+		x.Client = nil
+		x.adopt()
+		if x.Client == nil {
+			return
+		}
+	}
 	x.startProcs(b.Procs)
 	for i := range b.Steps {
 		if !x.step(i, &b.Steps[i]) {
